@@ -20,6 +20,15 @@ i.e. exactly the calls whose allele representation fits the 29 bits of the packe
      function (exact JVM double semantics in scvc) are evaluated at the first and last index of every row k (all k <= 32767 in the
      thorough tier, a stride in the quick tier); completeness for every index rests on the monotonicity of IEEE-754 operations.
  (N) hl.Call.__init__ orders the alleles of an unphased diploid call (precondition of (E)).
+ (Q) wave 4: the decoded call EQUALS the packed call under the real Call.__eq__, both built by the real Call.__init__ (the packed one
+     from a list); the KIND of the stored sequence counts (a list never equals a tuple) and _should_freeze is a free Boolean, so
+     the positions decoded as set elements / dict keys are covered.
+ (S) wave 4: the codec is a function of the 32 bits alone - AST obligation over the two _tcall methods and every module-level
+     function they reach: nothing written outlives the invocation, no memoising decorator, no mutable default, every module-level
+     value read is bound once and never written.
+ (T) wave 4: the staged twin of the engine's decoder, SCanonicalCallValue.forEachAllele / ploidy / isPhased (SCanonicalCall.scala),
+     parsed from the real text and executed by vc/scstaged.py on the engine's own packed values (BOUNDED like (G)): same alleles,
+     ploidy, phasing, no wrapping Int operation; AST: Int -> Double conversions apply to the allele representation itself.
 """
 from __future__ import annotations
 
@@ -827,4 +836,7 @@ def build(ctx):
     ctx.witness_search = search
     ctx.assume('Scala subset semantics as implemented by vc/scvc.py (32-bit two\'s complement Int, truncating division, 5-bit shift counts); Python ints as 64-bit vectors with no-overflow obligations')
     ctx.assume('allele indices in range: k(k+1)/2 + j < 2^29 with k <= 32767 (haploid: allele < 2^29); outside it the engine\'s 32-bit arithmetic wraps and nothing is claimed')
+    ctx.assume('the packed hl.Call was built from a list of alleles (the documented parameter type): a phased / haploid call built from a tuple already differs, under Call.__eq__, from the list-based call the decoder returns')
+    ctx.assume('staged Scala (SCanonicalCall.scala): the meaning given by vc/scstaged.py to the asm4s builder calls (cb.memoize / newLocal / assign / if_ / append, Code.invokeScalaObjectN / invokeStatic1 Math.sqrt / _fatal, toD / toI, no numeric promotion); the class-file generation itself is not modelled')
+    ctx.undecided('Call.__hash__ (dict / set lookups of decoded calls) and the other staged methods of SCanonicalCallValue (unphase, containsAllele, lgtToGT) are not under contract')
     ctx.assume('contract of allele_pair_sqrt / allelePairSqrt used by the decoders (pair of the index) rests on the bounded stand-in plus monotonicity of IEEE-754 sqrt, division, subtraction and float->int truncation')
